@@ -25,7 +25,7 @@ RULE = ("two inverter objects (all ordered pairs of 8 templates: ET 205 eco-v2 /
         "distinct = distinct (template pair, call sequences, interleaving) tuples")
 ASSUMPTIONS = ["results are compared by type name, str() and (for eco-mode / schedule values) their public fields",
                "each transcript runs in its own interpreter started by the check (subprocess per transcript)"]
-MUST = ["values_kept_while_registers_change", "same_model_different_capabilities_pairs", "retransmitting_pairs", "transcripts", "interleavings_compared", "concurrent_interleavings", "snapshots_checked", "eco_values_snapshotted",
+MUST = ["pairs_with_an_unreachable_inverter", "values_kept_while_registers_change", "same_model_different_capabilities_pairs", "retransmitting_pairs", "transcripts", "interleavings_compared", "concurrent_interleavings", "snapshots_checked", "eco_values_snapshotted",
         "cross_family_pairs", "same_template_pairs", "requests_compared", "concurrent_with_fragmented_answers", "long_history_pairs", "same_host_pairs", "drifting_measurements_pairs"]
 EXHAUSTIVE = {"quick": False, "thorough": False}
 
@@ -173,6 +173,8 @@ def worker(spec):
         for i in spec["active"]:
             if objs[i].get("silent"):       # this inverter stops answering once it has been identified
                 sims_[i].silent = True
+            if objs[i].get("endpoint_fail"):    # from now on this object's socket cannot be opened (route to ITS inverter is down), k times
+                loop.connect_scripts[sims_[i].owner] = ["unreach"] * int(objs[i]["endpoint_fail"])
         for i in spec["active"]:
             # an object with a long history: it has already built this many Modbus/TCP requests (what every transmission does)
             for _ in range(objs[i].get("pre_tx", 0)):
@@ -311,6 +313,8 @@ def scenario_check(sc, part, workdir):
         part.count("same_model_different_capabilities_pairs")
     if sc.get("changing"):
         part.count("values_kept_while_registers_change")
+    if sc.get("unreachable"):
+        part.count("pairs_with_an_unreachable_inverter")
     if sc.get("same_host"):
         part.count("same_host_pairs")
     if sc.get("drifting"):
@@ -495,6 +499,20 @@ def lossy_scenarios(seed):
     return out
 
 
+def unreachable_scenarios(seed):
+    """the socket towards inverter A cannot be opened (no route) for A's next k calls, each of which fails at once; object B, whose inverter
+    is fine, makes its calls in between and afterwards: B transmits and returns exactly what it does alone - whatever A's failures leave
+    behind (a counted resource, a shared flag) must not reach B"""
+    out = []
+    rr = [["read_runtime_data"]]
+    for a, b in (("ET205", "ET205"), ("DT", "ET205"), ("ESv1", "ESv1"), ("ET205", "DT"), ("DT", "DT")):
+        for k in (5, 9):
+            out.append({"seed": f"{seed}:unreach:{a}:{b}:{k}", "n_random_merges": 1, "n_concurrent": 1, "unreachable": True,
+                        "objects": [{"template": a, "port": 8899, "seed": f"{seed}:uA{len(out)}", "calls": rr * k, "endpoint_fail": k},
+                                    {"template": b, "port": 8899, "seed": f"{seed}:uB{len(out)}", "calls": rr * 2 + [["read_setting", "grid_export_limit"]] if not b.startswith("ES") else rr * 3}]})
+    return out
+
+
 def long_history_scenarios(seed):
     """object A has a long Modbus/TCP history behind it (tens of thousands of requests) when object B makes its few calls"""
     out = []
@@ -517,7 +535,7 @@ def run_shard(spec):
     part = Part()
     tier = spec["tier"]
     rnd = random.Random(f"{spec['seed']}:C20")
-    scs = directed_scenarios(spec["seed"]) + fragment_scenarios(spec["seed"]) + long_history_scenarios(spec["seed"]) + same_host_scenarios(spec["seed"]) + drift_scenarios(spec["seed"]) + lossy_scenarios(spec["seed"]) + capability_scenarios(spec["seed"]) + changing_content_scenarios(spec["seed"])
+    scs = directed_scenarios(spec["seed"]) + fragment_scenarios(spec["seed"]) + long_history_scenarios(spec["seed"]) + same_host_scenarios(spec["seed"]) + drift_scenarios(spec["seed"]) + lossy_scenarios(spec["seed"]) + capability_scenarios(spec["seed"]) + changing_content_scenarios(spec["seed"]) + unreachable_scenarios(spec["seed"])
     pairs = list(itertools.product(TEMPLATES, repeat=2))
     reps = 1 if tier == "quick" else 12
     for r in range(reps):
